@@ -54,6 +54,13 @@ CHECKS['C10'] = dict(text="Theorems over a history model of the pool object whos
   "lemmas; end-to-end histories on the real pool: results incl. shared objects in force, reuse/freshness from main's own log, "
   "worker_state private and preserved.", ref="5/C10",
   technique="Coq proof (induction over call histories, effects generated from source) + history oracle")
+CHECKS['C06'] = dict(text="Theorems over the history model (effects read off the source): right after ANY failed or cut-short call, for "
+  "every history before and after, the pool is indistinguishable from a fresh pool with the same settings (no live workers, "
+  "ordering flag cleared), so all later calls run with their own parameters and ordering mode. Tie: structural kernels of "
+  "_handle_exception / terminate / map / imap / imap_unordered handlers + Spec lemmas; end-to-end histories in which calls fail "
+  "by exception, timeout, SIGKILLed worker, nested-map misuse or are closed early, followed by calls whose results, ordering "
+  "mode and fresh workers are checked. SIGINT as a failure cause is exercised under C17.", ref="5/C06",
+  technique="Coq proof (bisimulation with a fresh pool over all histories, effects generated from source) + failure-history oracle")
 PENDING = {}
 props = [json.loads(l) for l in open(os.path.join(V, 'properties.jsonl'))]
 m = dict(version=1,
